@@ -823,8 +823,10 @@ def blocks_get_acl_settings(ctx: Ctx, rep: Report, rid: str = "R16.24") -> None:
     if not ctors or not stamped:
         rep.note(f"{rid} block construction or the stamping of adopted entries not recognised - not judged")
         return
+    from .common import expanded_keywords
+
     for c in ctors:
-        kws = {k.arg for k in c.keywords if k.arg}
+        kws = set(expanded_keywords(f, c))  # `AceGroup(**common_params, name=...)` with `common_params = dict(platform=...)`
         miss = sorted(stamped - kws)
         if miss and not any(k.arg is None and "self" in src(k.value) for k in c.keywords):
             rep.violation("Acl.group", snippet(c, 60), f"the block is built without the ACL's {miss}, which the ACL writes onto every entry it adopts: the block takes the default and stamps it on its entries - grouped entries of an ACL with version 15.x have version 0 and are re-rendered from the wrong name table (`eq msrpc` on ios 15.2)", where(f, c), inp="acl = Acl(text_with_eq_135, platform='ios', version='15.2', group_by='=== '); a = acl.items[0].items[1]; a.port_nr = True; a.port_nr = False; a.line")
